@@ -121,7 +121,7 @@ def request(chk: Check, repo: Repo) -> None:
             if n == "matches":
                 i = env.get("#answers", 1) - 1
                 return [Outcome(f"MATCH:{script[i].split(':')[1]}", script[i].endswith("accept"))]
-            if n == "pending.cancelled":
+            if isinstance(c.func, ast.Attribute) and c.func.attr == "cancelled" and isinstance(am.ev(c.func.value, env, {}), Obj) and am.ev(c.func.value, env, {}).cls == "Future" and n != "self._pending.cancelled":
                 return [Outcome(None, any(s.startswith("cancel") for s in script))]
             if n.startswith("logger.") or n.endswith("get_running_loop"):
                 return [Outcome(None, Obj("x", "x"))]
@@ -131,17 +131,18 @@ def request(chk: Check, repo: Repo) -> None:
 
         def step(node, env):
             a = node.ast
-            if node.kind == "stmt" and isinstance(a, ast.Assign) and isinstance(a.value, ast.Await) and ast.unparse(a.value.value) == "pending":
+            awaited = am.ev(a.value.value, env, {}) if node.kind == "stmt" and isinstance(a, ast.Assign) and isinstance(a.value, ast.Await) and isinstance(a.value.value, ast.Name) else None
+            if isinstance(awaited, Obj) and awaited.cls == "Future":  # the wait for the answer, whatever the local holding the future is called
                 i = env.get("#answers", 0)
                 ev = script[i] if i < len(script) else "timeout"
                 e2 = dict(env); e2["#answers"] = i + 1
                 tr = tuple(env.get("trace", ()))
                 if ev.startswith("answer"):
-                    e2["trace"] = tr + (f"AWAIT({env.get('pending')!r})",)
+                    e2["trace"] = tr + (f"AWAIT({awaited!r})",)
                     e2[ast.unparse(a.targets[0])] = Obj("CEMIFrame", f"answer{i}")
                     return [("next", e2)]
                 excn = "TimeoutError" if ev == "timeout" else "CancelledError"
-                e2["trace"] = tr + (f"AWAIT({env.get('pending')!r}):{excn}",)
+                e2["trace"] = tr + (f"AWAIT({awaited!r}):{excn}",)
                 e2["#raised"] = excn
                 return [(f"goto:{am._exc_target(node, excn)}", e2)]
             return base(node, env)
@@ -180,9 +181,10 @@ def request(chk: Check, repo: Repo) -> None:
             base2 = am2.step
             def step_closed(node, env_):
                 a = node.ast
-                if node.kind == "stmt" and isinstance(a, ast.Assign) and isinstance(a.value, ast.Await) and ast.unparse(a.value.value) == "pending":
+                awaited = am2.ev(a.value.value, env_, {}) if node.kind == "stmt" and isinstance(a, ast.Assign) and isinstance(a.value, ast.Await) and isinstance(a.value.value, ast.Name) else None
+                if isinstance(awaited, Obj) and awaited.cls == "Future":
                     e2 = dict(env_); e2["self.communication_channel"] = None
-                    e2["trace"] = tuple(env_.get("trace", ())) + (f"AWAIT({env_.get('pending')!r}):CancelledError",)
+                    e2["trace"] = tuple(env_.get("trace", ())) + (f"AWAIT({awaited!r}):CancelledError",)
                     e2["#raised"] = "CancelledError"
                     return [(f"goto:{am2._exc_target(node, 'CancelledError')}", e2)]
                 return base2(node, env_)
@@ -191,10 +193,12 @@ def request(chk: Check, repo: Repo) -> None:
             want = {(("SEND", f"AWAIT({F0}):CancelledError"), "raise CommunicationError", "None")}
         chk.ob("request-scenario", fi.site(), res == want, f"{label}: {sorted(map(str, res))}; reference {sorted(map(str, want))}", key=f"req|{label}" + ("" if res == want else f"|{sorted(map(str, res))}"))
     # every future awaited is the one stored in the pending slot
-    assigns = [n for n in cfg.nodes if isinstance(n.ast, ast.Assign) and ast.unparse(n.ast.targets[0]) == "self._pending" and ast.unparse(n.ast.value) == "pending"]
-    news = [n for n in cfg.nodes if isinstance(n.ast, (ast.Assign, ast.AnnAssign)) and ast.unparse(n.ast.targets[0] if isinstance(n.ast, ast.Assign) else n.ast.target) == "pending"]
-    chk.ob("awaited-future-is-the-slot", fi.site(), len(assigns) == len(news) == 2, f"every new future is stored into self._pending ({len(news)} creations, {len(assigns)} stores)", key="future-stored")
-    tm = [w for n in cfg.nodes if n.kind == "stmt" and isinstance(n.ast, ast.Assign) and isinstance(n.ast.value, ast.Await) and ast.unparse(n.ast.value.value) == "pending" for w in enclosing_with_items(n.withs)]
+    # the local(s) holding the awaited future: names assigned from create_future()
+    fut_names = {(n.ast.targets[0] if isinstance(n.ast, ast.Assign) else n.ast.target).id for n in cfg.nodes if isinstance(n.ast, (ast.Assign, ast.AnnAssign)) and n.ast.value is not None and isinstance(n.ast.targets[0] if isinstance(n.ast, ast.Assign) else n.ast.target, ast.Name) and isinstance(n.ast.value, ast.Call) and call_name(n.ast.value).endswith("create_future")}
+    assigns = [n for n in cfg.nodes if isinstance(n.ast, ast.Assign) and ast.unparse(n.ast.targets[0]) == "self._pending" and isinstance(n.ast.value, ast.Name) and n.ast.value.id in fut_names]
+    news = [n for n in cfg.nodes if isinstance(n.ast, (ast.Assign, ast.AnnAssign)) and isinstance(n.ast.targets[0] if isinstance(n.ast, ast.Assign) else n.ast.target, ast.Name) and (n.ast.targets[0] if isinstance(n.ast, ast.Assign) else n.ast.target).id in fut_names]
+    chk.ob("awaited-future-is-the-slot", fi.site(), len(assigns) == len(news) == 2 and len(fut_names) == 1, f"every new future is stored into self._pending ({len(news)} creations, {len(assigns)} stores)", key="future-stored")
+    tm = [w for n in cfg.nodes if n.kind == "stmt" and isinstance(n.ast, ast.Assign) and isinstance(n.ast.value, ast.Await) and isinstance(n.ast.value.value, ast.Name) and n.ast.value.value.id in fut_names for w in enclosing_with_items(n.withs)]
     chk.ob("answer-deadline", fi.site(), "asyncio.timeout(DEVICE_CONFIGURATION_REQUEST_TIMEOUT)" in tm, "waiting for the answer is bounded by asyncio.timeout(DEVICE_CONFIGURATION_REQUEST_TIMEOUT), covering re-waits after rejected frames", key="answer-deadline")
 
 
@@ -213,8 +217,11 @@ def matchers(chk: Check, repo: Repo) -> None:
             lam = kw.get("matches")
             body = ast.unparse(lam.body) if isinstance(lam, ast.Lambda) else ""
             arg = lam.args.args[0].arg if isinstance(lam, ast.Lambda) else "frame"
-            want_body = f"isinstance({arg}.data, {respcls}) and _same_property({arg}.data.property_info, property_info)"
-            ok = fkw.get("code", "").endswith(code) and fkw.get("data", "").startswith(reqcls + "(property_info=property_info") and body == want_body
+            # the property description the request carries is the very object (same local) the matcher compares with
+            data_call = next((k.value for k in frame.keywords if k.arg == "data"), None) if isinstance(frame, ast.Call) else None
+            pinfo = next((k.value.id for k in data_call.keywords if k.arg == "property_info" and isinstance(k.value, ast.Name)), None) if isinstance(data_call, ast.Call) and call_name(data_call) == reqcls else None
+            want_body = f"isinstance({arg}.data, {respcls}) and _same_property({arg}.data.property_info, {pinfo})"
+            ok = fkw.get("code", "").endswith(code) and pinfo is not None and body == want_body
             detail = f"request code {fkw.get('code')}, data {fkw.get('data', '')[:40]}..., matches = `{body}` (required `{want_body}`)"
         chk.ob("matcher-pairs-answer-with-request", fi.site(), ok, detail, key=f"matcher|{name}")
     sp = repo.func(M, "_same_property")
@@ -267,8 +274,10 @@ def stop_and_udp(chk: Check, repo: Repo) -> None:
     box = {}
     def cmu(c, env):
         n = call_name(c)
-        if n == "device_configuration.request":
-            return [Outcome("REQ:ack", None), Outcome("REQ:noack", Raise("RequestResponseError"))]
+        if isinstance(c.func, ast.Attribute) and c.func.attr == "request":
+            rv = box["am"].ev(c.func.value, env, {})  # the request object, whatever the local is called
+            if isinstance(rv, Obj) and rv.tag == "DeviceConfiguration":
+                return [Outcome("REQ:ack", None), Outcome("REQ:noack", Raise("RequestResponseError"))]
         if n == "DeviceConfigurationRequest":
             kw = {k.arg: box["am"].ev(k.value, env, {}) for k in c.keywords}
             return [Outcome(f"BUILD(seq={kw.get('sequence_counter')!r})", Obj("DeviceConfigurationRequest", "r"))]
